@@ -237,7 +237,12 @@ func (r *Run) CheckUP4Image(prop, ctx, cause string, o UP4Opts) {
 	}
 	for k := range wantApps {
 		if _, ok := appID[k]; !ok {
-			bad(0, "applications", "entry-missing", "no applications entry for filter %+v used by a live PDR", k)
+			var present []string
+			for pk, id := range appID {
+				present = append(present, fmt.Sprintf("%+v=id%d", pk, id))
+			}
+			sort.Strings(present)
+			bad(0, "applications", "entry-missing", "no applications entry for filter %+v used by a live PDR (entries present: %v)", k, present)
 		}
 	}
 
